@@ -645,6 +645,13 @@ class FilteredTable:
         if isinstance(key, str):
             s = self.table.sym_getitem(it, key)
             return Arr(self.table.space, s.arr().e, self.mask)
+        if isinstance(key, (list, tuple)) and key and all(isinstance(k, str) for k in key):
+            return Cols([self.sym_getitem(it, k) for k in key])         # df[[c1, c2, ...]] of the selected rows
+        if isinstance(key, Series):
+            key = key.arr()
+        if isinstance(key, Arr) and _is_boolish(key.e) and key.space is self.table.space:
+            require_same_mask(it, key.mask, self.mask, "boolean selection of already selected rows")
+            return FilteredTable(self.table, _mask_and(self.mask, truth_z(key.e)))
         raise EngineError("filtered table access")
 
     def sym_len(self, it):
